@@ -131,7 +131,10 @@ def run(E: Engine, rep: Report, tier: str) -> dict:
 
     # --------------------------------------------------------------- FLOW
     # every use of another channel's slot end is extended by that slot's ramp-down
-    FALL = "Q_op.tf + Q_op.type.fall_time(Q_cs.channel_obj, in_eom_mode=Q_cs.in_eom_mode()) + QS_r"
+    # (the EOM state is that of the examined slot -- `in_eom_mode(op)`, the per-slot form the sampler uses -- not the
+    #  channel's current one: a pulse played before enable_eom_mode keeps its regular fall time)
+    FALL = "Q_op.tf + Q_op.type.fall_time(Q_cs.channel_obj, in_eom_mode=Q_cs.in_eom_mode(Q_op)) + QS_r"
+    FALL_NOW = "Q_op.tf + Q_op.type.fall_time(Q_cs.channel_obj, in_eom_mode=Q_cs.in_eom_mode()) + QS_r"
     RISE = "Q_op.tf + 2 * Q_cs.channel_obj.rise_time + QS_r"
     n_uses = 0
     kinds = set()
@@ -143,6 +146,9 @@ def run(E: Engine, rep: Report, tier: str) -> dict:
             continue
         n_uses += 1
         mf, mr = has(l.value, FALL), has(l.value, RISE)
+        if mf is None and mr is None and has(l.value, FALL_NOW) is not None:
+            rep.violation("FLOW", f"_find_add_delay|fall-time-of-the-slot's-own-mode|{l.kind}", f"`{sh(l.value, 120)}` takes the other channel's fall time with in_eom_mode() -- the channel's CURRENT mode -- for every past slot: after enable_eom_mode() a 'min-delay' / 'wait-for-all' pulse on another channel starts before the last regular pulse (long fall time) has ramped down", E.where(fad, l.node))
+            mf = has(l.value, FALL_NOW)
         kind = "fall" if mf else "rise" if mr else "none"
         kinds.add((kind, l.kind))
         m = mf or mr
@@ -180,14 +186,33 @@ def run(E: Engine, rep: Report, tier: str) -> dict:
         raise AnalysisError("anchor: Sequence.align no longer calls _delay")
     for l in dl:
         d, ch = arg(l, 0, "duration"), arg(l, 1, "channel")
-        m = has(d, "max(Q_all) - Q_self.get_duration(Q_id)") or has(d, "max(Q_all) - Q_self.get_duration(Q_id, include_fall_time=False)")
+        # the common end may be pushed forward by a fixed-point loop until every channel can reach it with a valid delay
+        # (`tf` = loop('tf', max(...), <reachable end>)): the rule reads the loop's initial value
+        fix_loops = [t for t in sym.subterms(d) if len(t) == 4 and t[0] == "loop" and t[1] == "tf"] if d is not None else []
+        d0 = sym.subst(d, lambda t: t[2] if isinstance(t, tuple) and len(t) == 4 and t[0] == "loop" and t[1] == "tf" else None) if fix_loops else d
+        m = has(d0, "max(Q_all) - Q_self.get_duration(Q_id)") or has(d0, "max(Q_all) - Q_self.get_duration(Q_id, include_fall_time=False)")
         tgt_ok = m is not None and m["Q_all"][0] == "comp" and is_(m["Q_all"][2], "Q_self.get_duration(Q_e, include_fall_time=at_rest)") is not None and m["Q_all"][3] and m["Q_all"][3][0][0] == ("name", "channels")
         rep.check(tgt_ok, "ALIGN", "Sequence.align|target=max(end incl. fall time iff at_rest)", "tf = max over channels of get_duration(id, include_fall_time=at_rest)", f"the alignment target is no longer the max over the given channels of get_duration(id, include_fall_time=at_rest): delay = {sh(d, 200)}", E.where(al, l.node))
         plain = m is not None and m["Q_id"] == ch
         rep.check(plain, "FLOW", "Sequence.align|delta-subtracts-plain-end", "delta = tf - get_duration(id)  (the delay is appended at the plain end)",
                   f"align delays a channel by {sh(d, 200)}: the subtrahend must be the channel's own plain end get_duration(id) -- with its fall time included, channels do not end together at the latest at-rest time", E.where(al, l.node))
         rep.check(has(d, "Q_s[Q_id].adjust_duration(Q_x)", {"Q_id": ch}) is not None and any(is_(x, "0 < Q_d") is not None for x in sym.conj_of(l.cond)), "ALIGN", "Sequence.align|positive-adjusted-delay", "only a positive delay is added, after adjust_duration on that channel", "the alignment delay is no longer adjusted to the channel's clock / guarded by delta > 0", E.where(al, l.node))
-    rep.floor("ALIGN", 2)
+        # the channels END TOGETHER: each delay is stretched to its own channel's minimum duration and clock period, so the
+        # common end has to be one every channel can reach -- found by iterating `tf` to a fixed point of
+        # max over channels of (end + adjust_duration(tf - end))
+        body_ok = any(has(t[3], "Q_s.get_duration(Q_i) + Q_s._schedule[Q_i].adjust_duration(Q_tf - Q_s.get_duration(Q_i))") is not None for t in fix_loops)
+        rep.check(bool(fix_loops) and body_ok, "ALIGN", "Sequence.align|common-end-reachable-by-every-channel", "tf iterated to max_i(end_i + adjust_duration(tf - end_i))", "align adds `adjust_duration(tf - end)` to each channel with tf fixed beforehand: a channel whose minimum duration or clock period stretches its delay ends later than the others (200 ns on rydberg_global and 204 ns on raman_local of DigitalAnalogDevice end at 216 and 204), so the aligned channels do not end together", E.where(al, l.node))
+    rep.floor("ALIGN", 3)
+    # estimate_added_delay predicts what the same add inserts: it goes through the same make_next_pulse_slot, with the same
+    # inputs -- including the phase-drift parameters that add_eom_pulse(correct_phase_drift=True) hands over (the
+    # corrected phase differs from the last pulse's phase, which adds a phase-jump buffer)
+    mk_est = [l for l in S(E, est).calls("make_next_pulse_slot") if l.fn == est.short]
+    mk_add = [l for l in S(E, E.method(SEQ, "_add")).calls("make_next_pulse_slot")] or [l for l in S(E, E.method(SCHED, "add_pulse")).calls("make_next_pulse_slot")]
+    if not mk_est:
+        raise AnalysisError("anchor: Sequence.estimate_added_delay no longer calls make_next_pulse_slot")
+    drift_in_add = any(arg(l, 5, "phase_drift_params") not in (None, sym.NONE) for l in mk_add)
+    drift_in_est = any(arg(l, 5, "phase_drift_params") not in (None, sym.NONE) for l in mk_est)
+    rep.check(drift_in_est or not drift_in_add, "FLOW", "Sequence.estimate_added_delay|same-inputs-as-add|phase_drift_params", "the estimate hands make_next_pulse_slot the phase-drift parameters the add hands it", "estimate_added_delay calls make_next_pulse_slot without phase_drift_params while the add passes them for add_eom_pulse(correct_phase_drift=True): in EOM mode with a non-zero detuning_off the estimate is 0 ns where the add inserts a phase-jump buffer (172 ns in the repro)", E.where(est, mk_est[0].node))
     return {"uses_of_other_channel_end": n_uses}
 
 
